@@ -544,12 +544,13 @@ def _replay_sat(mod, desc, res, V, model, live):
         res['status'] = 'error'
         res['notes'].append(f'sat model did not replay: concrete run raised {type(cexc).__name__}: {cexc}; values={ {k: str(v) for k, v in values.items()} }')
         return
-    bylabel = {c.label: c for c in cclaims if isinstance(c, Eq)}
+    # concrete claims that carry the label of a live symbolic claim (labels may repeat: check every occurrence)
+    wanted = {c.label for c in live}
     found = False
-    for c in live:
-        cc = bylabel.get(c.label)
-        if cc is None:
+    for cc in cclaims:
+        if not isinstance(cc, Eq) or cc.label not in wanted:
             continue
+        c = cc
         if not concrete_equal(cc.lhs, cc.rhs):
             found = True
             res['violations'].append(_violation(mod.PROP, desc, c.label, c.fkey,
